@@ -191,6 +191,21 @@ func twinsC08(src *choice.Src, w *World, envReads []string) (tw []*World, dims [
 			add("linked-inputs", t)
 		}
 	}
+	if w.OutKind == "file" && !w.AbsInputs && len(w.Faults) == 0 && src.Chance("twin.concurrent", 1, 6) {
+		// another build of the same inputs runs at the same time in the same directory, writing next to
+		// this one's -o (make -j, a file watcher): not an input of this run
+		t := w.Clone()
+		p := &World{OutKind: "file", Out: filepath.Join(filepath.Dir(w.Out), choice.Pick(src, "twin.peerout", []string{"zz_peer.go", "stub.go", "a_peer_out.go"})),
+			Patterns: append([]string{}, w.Patterns...), Flags: append([]string{}, w.Flags...),
+			MapSeed: seed64(src, "twin.peer.map"), ListSeed: seed64(src, "twin.peer.list"), RandSeed: seed64(src, "twin.peer.rand"),
+			Clock: w.Clock, Pid: w.Pid + 7, Host: w.Host, Version: w.Version, Commit: w.Commit, Date: w.Date, Dirty: w.Dirty, Env: w.Env, NoGo: w.NoGo}
+		if src.Bool("twin.peer.stub") && !w.HasFlag("--stub") {
+			p.Flags = append(p.Flags, "--stub")
+		}
+		t.Peers = []*World{p}
+		t.SchedSeed = seed64(src, "twin.sched")
+		add("concurrent-peer", t)
+	}
 	{
 		t := w.Clone()
 		t.SlowSeed = seed64(src, "twin.slow") | 1
